@@ -1,182 +1,6 @@
-/-
-  F15: the ICMPv6 / NDP spoofing handler as the Go source says it now (Gen/Icmp6Gen.lean, regenerated by every
-  ./check from handlers/icmp_spoofer/{icmp6.go, icmp6spoof.go, icmp6radv.go}, layer_icmp6_ndp.go, layer_icmp.go)
-  is the model: one theorem per function.
--/
-import PacketVerif.Gen.Icmp6Gen
-import PacketVerif.Lemmas.Icmp6Tie
+import PacketVerif.Props.C14Icmp6Tie
 namespace PV.Props.C14Icmp6Tie
 open PV PV.Model PV.Model.Ndp PV.Model.Handlers PV.Model.Icmp6Hunt PV.Model.Icmp6Go PV.Gen.Icmp6 PV.Lemmas.Icmp6Tie
-
-/-- the class of `addr.IP` as the filters of StartHunt / StopHunt see it -/
-def classOf (ip : Bytes) : IpClass :=
-  if Netip.is4 ip then .v4 else if Netip.is6 ip then (if Netip.isLinkLocalUnicast ip then .lla else .other6) else .none
-
-/-- what StartHunt returns for the model's result -/
-def startOut : StartResult → Stage × Option Err
-  | .errInvalidIP => (.noChange, some .invalidIP)
-  | .noChange => (.noChange, none)
-  | .hunt => (.hunt, none)
-
-/-- model state of a Go-side state with the machine part replaced -/
-def withBase (g : G6) (b : Icmp6Hunt.State) : H6St := { abs g with base := b }
-
-theorem close_tie (e : H6Env) (g : G6) (hmu : g.st.mu = false) :
-    omap (fun r => abs r.1) (Handler6_Close e g) = close6 (abs g) := by
-  rcases g with ⟨⟨b, mu, ln, cc, wk, sn⟩, rs⟩
-  simp only at hmu
-  subst hmu
-  unfold Handler6_Close close6
-  simp only [abs, lock, unlock, closed, setClosed, setBase, closeChan, omap]
-  by_cases hc : b.closed = true
-  · simp [hc]
-  · by_cases hk : cc = true
-    · simp [hc, hk]
-    · simp [hc, hk]
-
-theorem close_ret (e : H6Env) (g g' : G6) (r : Option Err) (h : Handler6_Close e g = .ok (g', r)) : r = none := by
-  unfold Handler6_Close at h
-  simp only [closed, setClosed, setBase, closeChan] at h
-  by_cases hc : g.st.base.closed = true
-  · simp [hc] at h; exact h.2.symm
-  · by_cases hk : g.st.chanClosed = true
-    · simp [hc, hk] at h
-    · simp [hc, hk] at h; exact h.2.symm
-
-/-- what the API call returns for the machine's output -/
-def apiOut : Out → Stage × Option Err
-  | .start r => startOut r
-  | _ => (.normal, none)
-
-/-- the machine step as the outcome of the API call on the handler state `g` abstracts to -/
-def stepOut (g : G6) (ev : Event) (ret : Out → Stage × Option Err) : Outcome (H6St × Stage × Option Err) :=
-  match step (abs g).base ev with
-  | some (s', o) => .ok (withBase g s', ret o)
-  | none => .hang          -- `h.Lock()` waits for the loop that holds the mutex
-
-theorem startHunt_tie (e : H6Env) (g : G6) (addr : GAddr) (hfree : g.st.base.holder = none) :
-    omap (fun x => (abs x.1, x.2)) (Handler6_StartHunt e g addr) =
-      stepOut g (.startHunt addr.mac (classOf addr.ip)) apiOut := by
-  rcases g with ⟨⟨b, mu, ln, cc, wk, sn⟩, rs⟩
-  simp only at hfree
-  unfold Handler6_StartHunt
-  simp only [stepOut, step, classOf, abs, withBase, free, hfree, huntIndex, huntAdd, spawnLoop, setBase, omap]
-  by_cases h4 : Netip.is4 addr.ip = true
-  · simp [h4, startOut, apiOut, hfree]
-  · by_cases h6 : Netip.is6 addr.ip = true
-    · by_cases hl : Netip.isLinkLocalUnicast addr.ip = true
-      · by_cases hm : addr.mac ∈ b.hunt <;> simp [h4, h6, hl, hm, startOut, apiOut, hfree]
-      · simp [h4, h6, hl, startOut, apiOut, hfree]
-    · by_cases hm : addr.mac ∈ b.hunt <;> simp [h4, h6, hm, startOut, apiOut, hfree]
-
-/-- StopHunt acts on the list iff the address is not a valid non-link-local one -/
-def stopEff (ip : Bytes) : Bool := !(Netip.isValid ip && !Netip.isLinkLocalUnicast ip)
-
-theorem stopHunt_tie (e : H6Env) (g : G6) (addr : GAddr) (hfree : g.st.base.holder = none) :
-    omap (fun x => (abs x.1, x.2)) (Handler6_StopHunt e g addr) =
-      stepOut g (.stopHunt addr.mac (stopEff addr.ip))
-        (fun _ => if stopEff addr.ip then (Stage.normal, none) else (Stage.noChange, none)) := by
-  rcases g with ⟨⟨b, mu, ln, cc, wk, sn⟩, rs⟩
-  simp only at hfree
-  unfold Handler6_StopHunt
-  simp only [stepOut, step, stopEff, abs, withBase, free, hfree, huntDel, setBase, omap]
-  by_cases hv : (Netip.isValid addr.ip && !Netip.isLinkLocalUnicast addr.ip) = true
-  · simp [hv, hfree]
-  · simp [hv, hfree]
-
-theorem spoofLoop_pre_tie (e : H6Env) (g : G6) (a : GAddr) :
-    Handler6_spoofLoop_pre e g a =
-      .ok (g, { a with ip := Icmp6Na.loopDstIP (if Netip.isValid a.ip then some a.ip else none) }, 0) := by
-  unfold Handler6_spoofLoop_pre
-  by_cases hv : Netip.isValid a.ip = true <;> simp [hv, Icmp6Na.loopDstIP]
-
-def zeroHdr : RaHeader :=
-  { curHopLimit := 0, managed := false, other := false, preference := 0, lifetime := 0, reachable := 0, retrans := 0 }
-
-theorem findOrCreateRouter_tie (e : H6Env) (g : G6) (mac ip : Bytes) :
-    omap (fun x => (abs x.1, x.2)) (Handler6_findOrCreateRouter e g mac ip) =
-      match (abs g).base.routers.find? (fun x => x.1 = ip) with
-      | some _ => .ok (abs g, ip, true)
-      | none =>
-        if g.st.lanNil then .panic
-        else .ok (withBase g { (abs g).base with
-                    routers := (abs g).base.routers ++ [(ip, { mac := mac, ip := ip, hdr := zeroHdr, options := {} })],
-                    defaultRouter := some ip }, ip, false) := by
-  rcases g with ⟨⟨b, mu, ln, cc, wk, sn⟩, rs⟩
-  unfold Handler6_findOrCreateRouter
-  simp only [abs, withBase, find_abs, routerFind]
-  cases hf : rs.find? (fun x => x.1 = ip) with
-  | some x =>
-    have hx : x.1 = ip := by simpa using List.find?_some hf
-    simp [omap, hx]
-  | none =>
-    have ha := any_false_of_find_none rs ip hf
-    by_cases hl : ln = true
-    · simp [omap, mapSet, hl]
-    · simp [omap, mapSet, hl, ha, setDefRouter, setBase, abs, absRouters, absRouter, zeroHdr]
-
-theorem findRouter_tie (e : H6Env) (g : G6) (ip : Bytes) :
-    omap (fun x => (abs x.1, absRouter x.2)) (Handler6_FindRouter e g ip) =
-      .ok (abs g, (((abs g).base.routers.find? (fun x => x.1 = ip)).map (·.2)).getD (absRouter {})) := by
-  rcases g with ⟨⟨b, mu, ln, cc, wk, sn⟩, rs⟩
-  unfold Handler6_FindRouter
-  simp only [abs, find_abs, routerFind]
-  cases hf : rs.find? (fun x => x.1 = ip) with
-  | some x =>
-    have hx : x.1 = ip := by simpa using List.find?_some hf
-    simp [omap, R, hx, hf]
-  | none => simp [omap]
-
-
-/-! ## the send helpers (layer_icmp6_ndp.go, layer_icmp.go) -/
-
-theorem icmp6SendPacket_tie (e : H6Env) (g : G6) (src dst : GAddr) (b : Bytes) (hb : 4 ≤ b.length) :
-    Session_icmp6SendPacket e g src dst b =
-      (sendICMP6 e.pool e.cfg.hostMAC dst.mac src.ip dst.ip b >>= fun f => connWrite e g f) := by
-  unfold Session_icmp6SendPacket sendICMP6
-  rw [if_neg (by omega)]
-  simp only [hop_eq, obind_assoc]
-  refine obind_congr _ _ _ (fun a => ?_)
-  refine obind_congr _ _ _ (fun o => ?_)
-  cases o with
-  | none => simp [encodeIP6N]
-  | some pay =>
-    simp only [encodeIP6N, obind_assoc, ip6AppendPayloadN]
-    refine obind_congr _ _ _ (fun x1 => ?_)
-    refine obind_congr _ _ _ (fun x2 => ?_)
-    refine obind_congr _ _ _ (fun f => ?_)
-    cases h1 : Sl.reslice x2.fst x2.snd 8 24 with
-    | ok t1 =>
-      cases h2 : Sl.reslice x2.fst x2.snd 24 40 with
-      | ok t2 =>
-        simp only [Outcome.bind_ok]
-        have l1 := reslice_bytes_len _ _ _ _ _ h1
-        have l2 := reslice_bytes_len _ _ _ _ _ h2
-        rw [psh_k _ _ _ l1 l2]
-        simp only [Outcome.pure_eq, Outcome.bind_ok]
-        refine obind_congr _ _ _ (fun ic => ?_)
-        refine obind_congr _ _ _ (fun m' => ?_)
-        exact ret_norm _
-      | _ =>
-        obtain ⟨v, hv⟩ := copyInto_rep_ok b.length (Sl.bytes x2.fst t1)
-        simp only [Outcome.bind_ok, hv, Outcome.bind_err, Outcome.bind_panic, Outcome.bind_hang]
-    | _ => simp
-
-theorem sendNA_tie (e : H6Env) (g : G6) (src dst tgt : GAddr) :
-    Session_ICMP6SendNeighborAdvertisement e g src dst tgt =
-      (sendICMP6 e.pool e.cfg.hostMAC dst.mac src.ip dst.ip (naMarshal false false true tgt.ip tgt.mac) >>=
-        fun f => connWrite e g f) := by
-  unfold Session_ICMP6SendNeighborAdvertisement
-  exact icmp6SendPacket_tie e g src dst _ (by simp [naMarshalA, naMarshal])
-
-theorem sendNS_tie (e : H6Env) (g : G6) (src dst : GAddr) (tgt : Bytes) :
-    Session_ICMP6SendNeighbourSolicitation e g src dst tgt =
-      (sendICMP6 e.pool e.cfg.hostMAC dst.mac src.ip dst.ip (nsMarshal tgt e.cfg.hostMAC) >>=
-        fun f => connWrite e g f) := by
-  unfold Session_ICMP6SendNeighbourSolicitation
-  exact icmp6SendPacket_tie e g src dst _ (by simp [nsMarshal])
-
-/-! ## Handler6.ProcessPacket -/
 
 /-- what `Session.Parse` guarantees about the frame record the handler is given -/
 structure ParseOK (fr : Frame) (p : Bytes) : Prop where
@@ -370,5 +194,4 @@ theorem processPacket_tie (e : H6Env) (g : G6) (fr : Frame) (p : Bytes) (hmu : g
                             · subst h1; simp [icmp6Dispatch, hidx, h8, icmp6Ret]
                             · simp [icmp6Dispatch, hidx, h8, icmp6Ret, h133, h129, h128, h131, h143, h130, h137, h1, h134, h135, h136]
       | _ => simp [icmpType, omap, hidx]
-
 end PV.Props.C14Icmp6Tie
